@@ -197,7 +197,7 @@ def conclude(res, pid, proved, batch, failed, errors, direct_bad, theorem_desc):
 CASE_SECONDS = 30
 
 
-class CaseTooSlow(Exception):
+class CaseTooSlow(BaseException):
     pass
 
 
